@@ -12,11 +12,12 @@ FUNCTIONS_ENCODED = c12.FUNCTIONS_ENCODED + ["behaviour of the live TinyFlux obj
 TRUSTED = c12.TRUSTED
 ASSUMPTIONS = [
     "fault = one OSError(ENOSPC) raised by exactly one proxied I/O call (open, NamedTemporaryFile, write, flush, fsync, truncate, "
-    "close, os.replace/remove, the three steps of a file copy), before the call takes effect, or after it for "
-    "write/flush/fsync/truncate/close",
+    "close, os.replace/remove, the three steps of a file copy, and every line read while the library scans its file), before "
+    "the call takes effect, or after it for write/flush/fsync/truncate/close",
     "asserted: the error reaches the caller; the file decodes to the old or the new contents (insert_multiple: old + prefix); "
-    "afterwards each answer of the live object (count, len, all, get_timestamps) equals what its own storage iterates at that "
-    "moment or is an exception; after a further insert/remove and close(), the file decodes and a fresh TinyFlux opens it and "
+    "afterwards EACH answer of the live object (count, len, all, get_timestamps, get_measurements), taken on its own, equals what "
+    "its own storage iterates at that moment - or, when the failed operation left its handle closed, what the file at its path "
+    "decodes to - or is an exception; after a further insert/remove and close(), the file decodes and a fresh TinyFlux opens it and "
     "holds only points that were actually stored",
     "history and operations as in C12; finite selectors: exhaustion == enumeration of fault points",
     "outside the claim: several faults in one operation; partial writes (short write counts)",
@@ -37,5 +38,9 @@ def obligations(tier):
             for nxt in ("insert", "remove"):
                 for rew in (False, True):
                     obs.append({"id": f"oserror/{op}/{'ai' if ai else 'noai'}/then-{nxt}{'/after-rewrite' if rew else ''}", "harness": "h_crash", "params": {"op": op, "ai": ai, "mode": "oserror", "next": nxt, "pre_rewrite": rew}, "budget_s": 120})
+    for op in c12.W_OPS:
+        for ai in (True, False):
+            for nxt in ("insert", "remove"):
+                obs.append({"id": f"oserror/{op}/{'ai' if ai else 'noai'}/then-{nxt}/mode-w+", "harness": "h_crash", "params": {"op": op, "ai": ai, "mode": "oserror", "next": nxt, "access_mode": "w+"}, "budget_s": 120})
     obs.append({"id": "twin/oserror", "harness": "h_crash", "params": {"op": "update", "ai": True, "mode": "oserror", "twin": True}, "budget_s": 60})
     return obs
